@@ -125,10 +125,15 @@ class ORSet:
             tags -= self._removed
 
     def to_dict(self) -> dict:
-        """Serialize to a plain dict."""
-        entries = {}
-        for element, tags in self._entries.items():
-            entries[str(element)] = [list(tag) for tag in sorted(tags)]
+        """Serialize to a plain dict.
+
+        ``entries`` is a list of ``[element, tags]`` pairs so that elements
+        keep their type (and distinct elements never share a key).
+        """
+        entries = [
+            [element, [list(tag) for tag in sorted(tags)]]
+            for element, tags in self._entries.items()
+        ]
         return {
             "type": "ORSet",
             "node_id": self._node_id,
@@ -146,7 +151,10 @@ class ORSet:
         """
         s = cls(data["node_id"])
         s._seq = data["seq"]
-        for element, tags in data["entries"].items():
+        entries = data["entries"]
+        # Older dumps used a dict keyed by str(element)
+        pairs = entries.items() if isinstance(entries, dict) else entries
+        for element, tags in pairs:
             s._entries[element] = {tuple(tag) for tag in tags}
         s._removed = {tuple(tag) for tag in data.get("removed", [])}
         return s
